@@ -11,7 +11,7 @@ PFX = [('ms', 1000.0, 0.001), ('ks', 0.001, 1000.0), ('us', 1e6, 1e-6), ('Ms', 1
 # and for base units whose symbol is also a prefix letter (m, T): a conversion must not depend on earlier conversions
 def pairs_for(u, S, f):
     pre = u[:-1]
-    return [['s', u, S, f], ['m', pre + 'm', S, f], [pre + 'm', 'm', f, S], ['m', pre + 'm', S, f]]
+    return [['s', u, S, f], ['m', pre + 'm', S, f], [pre + 'm', 'm', f, S], ['m', pre + 'm', S, f], (['km', pre + 'm', S * 1e3, f * 1e-3] if pre != 'k' else ['Mm', pre + 'm', S * 1e6, f * 1e-6])]
 
 def run(chk, replay=None):
     binary = vcheck.ensure_build('plain')
